@@ -27,3 +27,4 @@ func vChan(label string) chan struct{}
 func vNondetCount() int
 func vUF1(name string, x float64) float64
 func vUF2(name string, x, y float64) float64
+func vRealModel() bool
